@@ -79,6 +79,32 @@ func GenCLIWorld(ch *Choices, thorough bool) (*IntegWorld, []cliTarget) {
 			targets = append(targets, cliTarget{Name: t.Name, Tasks: []string{t.Name}})
 		}
 	}
+	// a pipeline that nests one of the later pipeline targets: that target has then already been run
+	// (inside the nesting stage) when its own turn comes - it is not run again, and it failed
+	// exactly if it failed then
+	for j, tg := range targets {
+		if !tg.Pipeline || j == 0 && len(targets) == 1 && false {
+			continue
+		}
+		if !ch.Bool(1, 4, "nested-by-an-earlier-target") {
+			continue
+		}
+		inner := w.GraphByName(tg.Name)
+		outer := &GraphSpec{Name: fmt.Sprintf("outer%d", j)}
+		ot := cliTarget{Name: outer.Name, Pipeline: true}
+		if ch.Bool(1, 2, "plain-stage-too") {
+			t := newTask()
+			outer.Stages = append(outer.Stages, &StageSpec{Name: t.Name})
+			ot.Tasks = append(ot.Tasks, t.Name)
+		}
+		ns := &StageSpec{Name: "n" + tg.Name, Nested: inner, Allow: ch.Bool(2, 3, "nesting-stage-allow")}
+		outer.Stages = append(outer.Stages, ns)
+		ot.Tasks = append(ot.Tasks, tg.Tasks...)
+		w.ExtraGraphs = append(w.ExtraGraphs, outer)
+		pos := ch.Choose(j+1, "outer-position")
+		targets = append(targets[:pos], append([]cliTarget{ot}, targets[pos:]...)...)
+		break
+	}
 	// a task that is defined but not requested
 	newTask()
 	form := ch.Choose(3, "argv-form") // 0: root action, 1: `run`, 2: `run` with the noise word `pipeline` skipped by the CLI
@@ -112,7 +138,9 @@ func (e *integEngine) checkCLI(targets []cliTarget) {
 	tIdx := map[string]int{}
 	for i, t := range targets {
 		for _, n := range t.Tasks {
-			tIdx[n] = i
+			if _, ok := tIdx[n]; !ok {
+				tIdx[n] = i // (a pipeline nested by an earlier target runs there)
+			}
 		}
 	}
 	// (1) argv order, no overlap between targets; (2) nothing after the first failing target
@@ -208,22 +236,34 @@ func (e *integEngine) computeCLIExpect(targets []cliTarget) *cliExpect {
 		x.task[t.Name] = ModelTask(e.w, t)
 	}
 	out := &cliExpect{integ: x, firstFail: -1}
+	ranAlready := map[string]bool{} // pipeline name -> it failed, for pipelines that have been scheduled
 	for i, tg := range targets {
 		failed := false
 		if tg.Pipeline {
 			g := e.w.GraphByName(tg.Name)
-			for _, s := range g.Stages {
-				s.Fail = x.task[e.stageTask(s)].Failed
-			}
-			dag := EvalDag(g, false)
-			for _, l := range g.AllLeaves() {
-				if dag.Ran[l.Name] {
-					x.runs[e.stageTask(l)] = true
+			if f, ok := ranAlready[g.Name]; ok {
+				// scheduled before (nested by an earlier target): nothing runs again, the result stands
+				failed = f
+			} else {
+				for _, l := range g.AllLeaves() {
+					l.Fail = x.task[e.stageTask(l)].Failed
 				}
-			}
-			failed = dag.Err[g.Name]
-			if dag.Ambiguous {
-				x.dag = dag
+				dag := EvalDag(g, false)
+				for _, l := range g.AllLeaves() {
+					if dag.Ran[l.Name] {
+						x.runs[e.stageTask(l)] = true
+					}
+				}
+				failed = dag.Err[g.Name]
+				if dag.Ambiguous {
+					x.dag = dag
+				}
+				ranAlready[g.Name] = failed
+				for _, s := range g.Stages {
+					if s.Nested != nil && dag.Status[s.Name] != MCanceled && dag.Status[s.Name] != "" && dag.Status[s.Name] != MWaiting {
+						ranAlready[s.Nested.Name] = dag.Err[s.Nested.Name]
+					}
+				}
 			}
 		} else {
 			x.runs[tg.Name] = true
@@ -278,6 +318,11 @@ func runCLIJob(c *Ctl, job *Job, idx int, res *RunResult) {
 		return
 	}
 	w, targets := GenCLIWorld(c.Ch, job.Tier == "thorough")
+	for _, g := range w.ExtraGraphs {
+		if strings.HasPrefix(g.Name, "outer") {
+			c.Count("cli_worlds_with_a_target_nested_by_an_earlier_one")
+		}
+	}
 	res.Sample = map[string]interface{}{"world": w.Summary(), "argv": strings.Join(w.CLIArgs, " ")}
 	e := RunIntegWorld(c, prof, w, res)
 	if e == nil {
